@@ -18,6 +18,8 @@ REPO = front.REPO
 def repo_import(rel):
     if rel.startswith("verif/"):
         return importlib.import_module(rel[6:-3].replace("/", "."))
+    import logging
+    logging.getLogger("IsoQuant").setLevel(logging.CRITICAL + 1)
     if REPO not in sys.path:
         sys.path.insert(0, REPO)
     mod = rel[:-3].replace("/", ".")
